@@ -138,6 +138,14 @@ func certTemplate(class string) *x509.Certificate {
 		t.MaxPathLen = -1
 		t.PermittedDNSDomainsCritical = true
 		t.PermittedDNSDomains = []string{"example.com", ".example.org"}
+	case "constraints_extra_policies":
+		// name constraints generated from the template, certificatePolicies supplied ready-made: neither replaces the other
+		t.BasicConstraintsValid, t.IsCA = true, true
+		t.MaxPathLen = -1
+		t.PermittedDNSDomainsCritical = true
+		t.PermittedDNSDomains = []string{"example.com"}
+		t.ExtraExtensions = []pkix.Extension{{Id: asn1.ObjectIdentifier{2, 5, 29, 32}, Value: []byte{0x30, 0x06, 0x30, 0x04, 0x06, 0x02, 0x2a, 0x03}}}
+		t.PolicyIdentifiers = []asn1.ObjectIdentifier{{1, 2, 3}} // (what the ready-made extension says)
 	case "policies":
 		t.PolicyIdentifiers = []asn1.ObjectIdentifier{{1, 2, 3}, {2, 5, 29, 32, 0}}
 		t.OCSPServer = []string{"http://ocsp.example.com"}
@@ -321,7 +329,25 @@ func runIssue(kind, family, alg, class string, dense bool) (o issueObs) {
 					if len(c.UnhandledCriticalExtensions) != 0 {
 						o.FieldDiff = append(o.FieldDiff, fmt.Sprint("critical extensions reported as not handled: ", c.UnhandledCriticalExtensions))
 					}
-					if class == "extra_overrides_eku" || class == "extra_overrides_keyusage" {
+					if class == "ca_pathlen0" || class == "ca_pathlen2" {
+						// the same template as a SELF-signed CA certificate: it verifies under its own key (a path length
+						// constraint counts the certificates below a CA, not the CA's own self-issued certificate)
+						if sm, ok := signer.(interface{ Public() crypto.PublicKey }); ok {
+							st := certTemplate(class)
+							st.SignatureAlgorithm = sa
+							spub, isSM2 := sm.Public().(*sm2.PublicKey)
+							if !isSM2 {
+								// (the package certifies SM2 subject keys only: a self-signed certificate needs an SM2 signer)
+							} else if sder, e := x509.CreateCertificate(st, st, spub, signer); e != nil {
+								o.FieldDiff = append(o.FieldDiff, "self-signed certificate of this template: "+e.Error())
+							} else if sc, e := x509.ParseCertificate(sder); e != nil {
+								o.FieldDiff = append(o.FieldDiff, "self-signed certificate of this template does not parse: "+e.Error())
+							} else if e := sc.CheckSignatureFrom(sc); e != nil {
+								o.FieldDiff = append(o.FieldDiff, "self-signed certificate of this template does not verify under its own key: "+e.Error())
+							}
+						}
+					}
+					if class == "extra_overrides_eku" || class == "extra_overrides_keyusage" || class == "constraints_extra_policies" {
 						seen := map[string]int{}
 						for _, e := range c.Extensions {
 							seen[e.Id.String()]++
@@ -385,8 +411,21 @@ func runIssue(kind, family, alg, class string, dense bool) (o issueObs) {
 				}
 				der, err = issuer.CreateCRL(rand.Reader, signer, revoked, now, now.Add(24*time.Hour))
 			} else {
+				// (with an extension of the caller's own: it belongs to the signed part like everything else)
 				der, err = x509.CreateRevocationList(rand.Reader, &x509.RevocationList{SignatureAlgorithm: sa, RevokedCertificates: revoked, Number: big.NewInt(5),
-					ThisUpdate: now, NextUpdate: now.Add(24 * time.Hour)}, issuer, signer)
+					ThisUpdate: now, NextUpdate: now.Add(24 * time.Hour),
+					ExtraExtensions: []pkix.Extension{{Id: asn1.ObjectIdentifier{1, 2, 3, 4, 5, 6, 7}, Value: []byte{4, 3, 1, 2, 3}}}}, issuer, signer)
+				if err == nil {
+					if c, e := x509.ParseDERCRL(der); e == nil {
+						found := false
+						for _, x := range c.TBSCertList.Extensions {
+							found = found || x.Id.Equal(asn1.ObjectIdentifier{1, 2, 3, 4, 5, 6, 7})
+						}
+						if !found {
+							o.FieldDiff = append(o.FieldDiff, "the revocation list's extra extension is lost")
+						}
+					}
+				}
 			}
 			verify = func(d []byte, h *x509.Certificate) error {
 				c, e := x509.ParseDERCRL(d)
